@@ -356,7 +356,14 @@ func (s *sender) sendEmptyPacket() {
 		frameNo:    s.frameNo,
 		data:       []byte{},
 	}
-	s.sendQueue <- pkt
+	// The caller holds the tube lock, and the only consumer of this queue
+	// (Reliable.send) takes that lock too: never wait for room here. Dropping the
+	// packet is harmless, every queued frame carries the latest ackNo when it is
+	// handed to the Muxer.
+	select {
+	case s.sendQueue <- pkt:
+	default:
+	}
 }
 
 func (s *sender) framesToSend(rto bool, startIndex int) int {
@@ -436,7 +443,12 @@ func (s *sender) sendFin() error {
 	}{&pkt, time.Time{}})
 
 	if addToSendQueue {
-		s.sendQueue <- &pkt
+		// Never wait for room while holding the tube lock (see sendEmptyPacket).
+		// The FIN is frames[0]: if the queue is full the retransmission timer sends it.
+		select {
+		case s.sendQueue <- &pkt:
+		default:
+		}
 	}
 
 	return nil
